@@ -30,6 +30,10 @@ const PARAMS = {
   fnExprIdent: (T) => `function (props: ${T}) { return () => null; }`,
   fnExprObjPat: (T) => `function setup({ zz1 }: ${T}, ctx: any) { return () => null; }`,
   asyncArrow: (T) => `async (props: ${T}) => () => null`,
+  // an options argument that says nothing about props (other derived options already written by the user)
+  optsEmits: (T) => `(props: ${T}) => () => null, { emits: ['own'] }`,
+  optsName: (T) => `(props: ${T}, ctx: SetupContext<(e: 'x') => void>) => () => null, { 'name': 'Own', inheritAttrs: false }`,
+  optsEmitsQuoted: (T) => `function (props: ${T}) { return () => null; }, { "emits": uo.e, name: 'Own' }`,
   withCtx: (T) => `(props: ${T}, { emit }: SetupContext<(e: 'x') => void>) => () => null`,
 };
 // declarations of one merged interface cannot be split across scopes (the inner one would shadow, not merge)
@@ -71,6 +75,7 @@ function render(c) {
     return `${R.PRELUDE}${outer.join('\n')}\nfunction make() {\n  ${inner.join('\n  ')}\n  return ${call};\n}\nexport const C = make();\n`;
   }
   const decls = enc.decls.join('\n');
+  if (c.scope === 'laterVueImport') return `${R.PRELUDE}import { ref as unusedRef } from 'vue';\nimport type { Slots } from 'vue';\n${decls}\nexport const C = ${call};\n`;
   if (c.scope === 'twice') return `${R.PRELUDE}${decls}\nexport const C0 = ${call};\nexport const C = ${call};\n`;
   return c.pos === 'before' ? `${R.PRELUDE}${decls}\nexport const C = ${call};\n` : `${R.PRELUDE}export const C = ${call};\n${decls}\n`;
 }
@@ -134,6 +139,7 @@ function spaces(tier) {
         for (const map of allMaps) yield { sp: 'P', map, path: [], pos: 'before', scope: 'shadowChain' };
         for (const param of Object.keys(PARAMS)) if (param !== 'ident') for (const map of allMaps) for (const path of [[], ['iface'], ['alias']]) yield { sp: 'P', map, path, pos: 'before', scope: 'module', param };
         for (const map of allMaps) for (const path of paths(1)) yield { sp: 'P', map, path, pos: 'before', scope: 'twice' };
+        for (const map of allMaps) for (const path of [[], ['iface']]) yield { sp: 'P', map, path, pos: 'before', scope: 'laterVueImport' };
         for (const map of allMaps.filter((m) => m.length <= 2).concat(coreMaps.filter((m) => m.length === 3))) for (const path of paths(2)) if (path.length >= 1 && declsSplittable(map, path)) yield { sp: 'P', map, path, pos: 'before', scope: 'mixedLast' };
         for (const map of (thorough ? allMaps : allMaps.filter((m) => m.length <= 2).concat(coreMaps.filter((m) => m.length === 3)))) for (const path of paths(thorough ? 3 : 2)) if (path.length >= 2) for (const pos of (thorough ? ['before', 'after'] : ['before'])) {
           if (thorough && path.length === 3 && map.length !== 2) continue;
